@@ -40,7 +40,9 @@ def run(ctx, res):
     from .. import parsercheck
     res.rules_run.append("C19.parse (the strict parser rejects no valid text and decodes it to its abstract content: product findings of kind rejects-valid and on the output channels)")
     parsercheck.apply(ctx, res, ["C01.lang", "C02.", "E2."], strict_only=True, rename="C19.parse",
-                      finding_filter=lambda f, strict: None if (f["rule"].startswith("C02.") or "rejects-valid" in f["key"]) else "the parser accepting too much does not change what a valid literal parses to")
+                      finding_filter=lambda f, strict: None if (f["rule"].startswith(("C02.str", "C02.struct")) or "rejects-valid" in f["key"]) else (
+                          "the spelling the parser keeps for a number is C02's clause (the macro's numbers are formatted by the number crate, not taken from a text)" if f["rule"].startswith("C02.num")
+                          else "the parser accepting too much does not change what a valid literal parses to"))
     res.trusted.append("rustc's macro_rules! expander and MIR construction (the expansion is taken from the compiler, not re-implemented)")
     res.trusted.append("json_number's NumberBuf::from(integer) / try_from(f64) and smallstr's From<&str> produce the lexical form of their argument (third-party crates, opaque)")
 
